@@ -40,3 +40,22 @@ PROPS["C15"] = {
         "note": "Trusted: gosym executor, z3; encoding/json|xml|gob are compared by kind only. Branch feasibility on single bytes is pre-decided by exact 256-value domains (cross-checkable with -no-dom); every assertion is discharged by the SMT solver; counterexamples and sampled witnesses are replayed natively.",
     },
 }
+
+PROPS["C16"] = {
+    "level": "model_checking",
+    "jobs": [
+        {"name": "http", "pkg": "goa.design/goa/v3/http", "pkgdir": "http", "pkgname": "http", "harness_dir": "http",
+         "files": ["zz_verif_c15.go", "zz_verif_c16.go"], "quick": r"^VerifC16_", "thorough": r"^VerifC16T?_",
+         "shards": {r"CaptureSingle": 5, r"CaptureMid": 2, r"CaptureTwo|CatchAll": 3}},
+    ],
+    "bounds": {"quick": {"pattern_shapes": ["/p/{x}", "/p/{x}/q", "/{x}/{y}", "/p/{*x}", "/{*x}", "3 routes sharing a prefix", "2 methods on one catch-all pattern"],
+                         "value_templates": ["1 byte", "2 bytes", "'%'+2 bytes", "byte+'%'+byte+'F'"], "bytes": "full 0..255 range per symbolic byte"},
+               "thorough": {"value_templates": "adds 3 fully symbolic bytes for /p/{x}"}},
+    "assumptions": ["net/http hands the handler a URL parsed by url.ParseRequestURI from the request-target (harness does the same)",
+                    "chi v5.1.0 as in the module cache, interpreted from its own SSA (InsertRoute, routeHTTP, findRoute); sync.Pool as a fresh allocation"],
+    "outside": ["empty value for a single-segment wildcard (chi does not match it)", "values longer than the templates", "404 body and middleware ordering (see DESIGN.md)", "regexp routes"],
+    "manifest": {
+        "text": "Bounded model checking of the real goa muxer (Handle, Vars, unescape, ResolvePattern, resolveWildcard, ensureContext) on top of the real chi router and the real net/url escaping/parsing code, all interpreted from SSA: for every wildcard value drawn from templates with 1-2 (quick) / 3 (thorough) fully symbolic bytes, the URL built by substituting PathEscape(value) into each of 5 pattern shapes is parsed, routed to the handler of that pattern, Vars returns exactly the original value (including '/', '%', %XX look-alikes, '+', blanks, non-ASCII), ResolvePattern returns the registered pattern, and dispatch picks the right route among routes sharing a prefix or differing by method.",
+        "note": "Trusted: gosym executor, z3, regexp on the concrete mount-time patterns (run natively). Branch feasibility on single bytes pre-decided by exact byte domains; all assertions discharged by the SMT solver; counterexamples and witnesses replayed natively against real net/http+chi.",
+    },
+}
